@@ -117,12 +117,23 @@ def value_rules(R, lib, ob):
     # their signed length is sign * ((hour * 60 + minute) * 60 + second) all the same
     neg = lib.fns('ace_time::TimePeriod::negate')
     states = [(0, 0, 0, 1), (0, 0, 0, -1), (1, 0, 0, 1), (0, 60, 0, 1), (0, 59, 60, 1), (0, 59, 59, 1), (0, 0, 200, 1), (0, 3, 20, 1), (0, 2, 80, -1), (0, 3, 20, -1),
-              (1, 0, 0, -1), (0, 60, 0, -1), (0, 61, 0, -1), (2, 0, 0, 1), (1, 59, 61, 1), (0, 0, 1, -1), (0, 0, 1, 1)]
+              (1, 0, 0, -1), (0, 60, 0, -1), (0, 61, 0, -1), (2, 0, 0, 1), (1, 59, 61, 1), (0, 0, 1, -1), (0, 0, 1, 1),
+              # sign bytes other than +1 / -1, as the field constructor and sign(int8_t) accept them: the header documents that anything
+              # >= 0 counts as positive and anything below as negative
+              (0, 0, 30, 0), (0, 0, 30, 5), (0, 0, 30, -3), (0, 1, 0, 127), (0, 1, 0, -128)]
     made = []
     for h_, m_, s_, g_ in states:
         o = cxx_object(lib, 'ace_time::TimePeriod')
         o.attrs.update({'mHour': h_, 'mMinute': m_, 'mSecond': s_, 'mSign': g_})
-        made.append((o, g_ * ((h_ * 60 + m_) * 60 + s_), 'TimePeriod(%d, %d, %d, %d)' % (h_, m_, s_, g_)))
+        made.append((o, (1 if g_ >= 0 else -1) * ((h_ * 60 + m_) * 60 + s_), 'TimePeriod(%d, %d, %d, %d)' % (h_, m_, s_, g_)))
+    for ox, lx, tx in made:
+        try:
+            got = call(ts, [], recv=ox)
+        except Raised as x_:
+            got = 'raises %s' % x_.what
+        if got != lx and bad_t is None and not bad_c:
+            bad_t = '%s.toSeconds() is %s, expected %d' % (tx, got, lx)
+            R.violation('R1', ts.name, ts.loc, bad_t + ': toSeconds() is not (sign >= 0 ? 1 : -1) * ((hour * 60 + minute) * 60 + second)')
     if neg:
         for s_ in (0, 1, -1, 3600):
             o = cxx_object(lib, 'ace_time::TimePeriod')
